@@ -178,7 +178,8 @@ def render(prog, reset=None, entity="T", on_reset=False, c04=False):
                 n = f.site_no[(lid, idx)]
                 lines += [pre + f"{env}.o <<= {n}", pre + f"{env}.p{n} ^= True", pre + "v @= v + 1", pre + f"{env}.ov <<= v"]
                 if c04:
-                    lines += [pre + f"{env}.ond <<= {n}", pre + f"{env}.onr <<= {n}", pre + f"{env}.orst <<= 1"]
+                    lines += [pre + f"{env}.ond <<= {n}", pre + f"{env}.onr <<= {n}", pre + f"{env}.orst <<= 1",
+                              pre + f"{env}.onr2[0] <<= {bool(n & 1)}", pre + f"{env}.onr2[2:1] <<= '{(n >> 1) & 3:02b}'"]
             elif k == "await":
                 lines.append(pre + "await " + AWAIT[st[1]][0].replace("self.", env + "."))
             elif k == "if":
@@ -207,6 +208,8 @@ def render(prog, reset=None, entity="T", on_reset=False, c04=False):
         out.append("    rst = Port.input(Bit)")
     out.append("    i0 = Port.input(Bit)")
     out.append("    i1 = Port.input(Bit)")
+    if reset is not None and reset.get("step_cond"):
+        out.append("    en = Port.input(Bit)")
     out.append("    o = Port.output(Unsigned[3], default=0)")
     out.append("    ov = Port.output(Unsigned[2], default=0)")
     for n in range(1, f.nsites + 1):
@@ -214,6 +217,7 @@ def render(prog, reset=None, entity="T", on_reset=False, c04=False):
     if c04:
         out.append("    ond = Port.output(Unsigned[3])")
         out.append("    onr = Port.output(Unsigned[3], default=0, noreset=True)")
+        out.append("    onr2 = Port.output(Unsigned[3], default=0, noreset=True)")
         out.append("    orst = Port.output(Unsigned[2], default=0)")
     out.append("    def architecture(self):")
     out.append("        v = Variable[Unsigned[2]](0)")
@@ -224,8 +228,9 @@ def render(prog, reset=None, entity="T", on_reset=False, c04=False):
     if reset is None:
         out.append("        @std.sequential(std.Clock(self.clk))")
     else:
+        sc = ", step_cond=lambda: self.en" if reset.get("step_cond") else ""
         out.append(f"        @std.sequential(std.Clock(self.clk), std.Reset(self.rst, is_async={reset['is_async']}, "
-                   f"active_low={reset['active_low']}){onr})")
+                   f"active_low={reset['active_low']}){sc}{onr})")
     out.append("        async def proc():")
     out.append("            nonlocal v")
     out += block(f.top, 3, "self")
@@ -254,6 +259,7 @@ class RefMachine:
         self.on_reset = on_reset
         self.ond = None   # no default: undefined until first assignment, kept by reset
         self.onr = 0      # noreset: kept by reset
+        self.onr2 = 0     # noreset, written through bit / slice references
         self.orst = 0
         self.reset_state()
 
@@ -266,15 +272,15 @@ class RefMachine:
         self.pulses = frozenset()
 
     def snapshot(self):
-        return (self.mode, self.stack, self.o, self.ov, self.v, self.pulses, self.ond, self.onr, self.orst)
+        return (self.mode, self.stack, self.o, self.ov, self.v, self.pulses, self.ond, self.onr, self.orst, self.onr2)
 
     def restore(self, s):
-        self.mode, self.stack, self.o, self.ov, self.v, self.pulses, self.ond, self.onr, self.orst = s
+        self.mode, self.stack, self.o, self.ov, self.v, self.pulses, self.ond, self.onr, self.orst, self.onr2 = s
 
     def outputs(self):
         d = {"o": self.o, "ov": self.ov}
         if self.c04:
-            d.update(ond=self.ond, onr=self.onr, orst=self.orst)
+            d.update(ond=self.ond, onr=self.onr, orst=self.orst, onr2=self.onr2)
         for n in range(1, self.f.nsites + 1):
             d[f"p{n}"] = 1 if n in self.pulses else 0
         return d
@@ -353,6 +359,7 @@ class RefMachine:
                 if self.c04:
                     self.ond = n
                     self.onr = n
+                    self.onr2 = n & 7
                     self.orst = 1
                 self.v = (self.v + 1) & 3
                 ov_next = self.v
